@@ -157,8 +157,8 @@ Print Assumptions list_property_consumed.
 (* binary files (both byte orders), face element made of any list properties (none called texcoord), the index
    property at position ip with int or uint items, every face listing three or four vertices: the index buffer of
    the mesh is the concatenation, in face order, of the triangle itself or of the fan (0,1,2),(0,2,3).
-   _partial: this theorem is the no-texcoord case; [quad_fan_texcoord_bin] adds binary faces with a texcoord list;
-   ascii faces with a texcoord list and the unweld step of MeshReader.Read are covered by the correspondence only. *)
+   (named _partial because it is the no-texcoord case; [quad_fan_texcoord_bin] / [quad_fan_texcoord_ascii] add the
+   texcoord list, [read_mesh_triangles] / [read_mesh_textured] the whole file including the unweld step) *)
 Theorem quad_fan_partial : forall e rs ip ct lt (fs : list (list (list N))) rest st,
   nth_error rs ip = Some (ct, lt) -> index_ty_ok lt = true ->
   Forall (face_ok rs ip) fs ->
@@ -180,6 +180,21 @@ Theorem quad_fan_texcoord_bin : forall e rs ip tk ct lt ctt ltt (fs : list (list
       flat_map (fun f => fan (pairs (map (tex_value ltt) (nth tk f []))) []) fs).
 Proof. exact quad_fan_tex_bin_proof. Qed.
 Print Assumptions quad_fan_texcoord_bin.
+
+(* ascii files with a texcoord list, one face per line, vertex numbers below 2^31 *)
+Theorem quad_fan_texcoord_ascii : forall rs ip tk ct lt ctt ltt (fs : list (list (list N))) st,
+  rs <> [] -> nth_error rs ip = Some (ct, lt) -> index_ty_ok lt = true ->
+  nth_error rs tk = Some (ctt, ltt) -> (ltt = Float \/ ltt = Double) ->
+  List.length (fs_ibuf st) = 4%nat -> List.length (fs_tbuf st) = 8%nat ->
+  Forall (fun f => List.length f = List.length rs /\
+                   ((List.length (nth ip f []) = 3%nat /\ List.length (nth tk f []) = 6%nat) \/
+                    (List.length (nth ip f []) = 4%nat /\ List.length (nth tk f []) = 8%nat)) /\
+                   Forall (fun w => w < 2 ^ 31) (nth ip f [])) fs ->
+  faces_ascii rs ip (Some tk) (map (enc_face_ascii rs) fs) (List.length fs) st =
+  Ok (flat_map (fun f => fan_tris (map signed32 (nth ip f []))) fs,
+      flat_map (fun f => fan (pairs (map (tex_value ltt) (nth tk f []))) []) fs).
+Proof. exact quad_fan_tex_ascii_proof. Qed.
+Print Assumptions quad_fan_texcoord_ascii.
 
 (* the same for ascii files, one face per line (int items read signed, uint items unsigned) *)
 Theorem quad_fan_ascii_partial : forall rs ip ct lt (fs : list (list (list N))) st,
@@ -278,19 +293,18 @@ Print Assumptions read_mesh_points_noisy.
    with int or uint items, no texcoord list, every face with three or four vertex numbers (< 2^31): the model of
    ply.ReadMesh returns triangle topology, each triangle / the fan (0,1,2),(0,2,3) of each quad in face order, and the
    vertex attributes as above — for ascii, little-endian and big-endian files.
-   _partial: files whose face element also has a texcoord list (per-corner UVs + unweld) are covered by
-   [quad_fan_texcoord_bin] / [quad_fan_texcoord_ascii] at the face-reader level and by the correspondence check. *)
-Theorem read_mesh_triangles_partial : forall a fps ip ct lt, trimesh_ok a fps ip ct lt ->
+   Files whose face element also has a texcoord list: [read_mesh_textured] below. *)
+Theorem read_mesh_triangles : forall a fps ip ct lt, trimesh_ok a fps ip ct lt ->
   read_mesh (encode a) = describe a /\ exists m, describe a = Ok m.
 Proof. exact read_mesh_tris_proof. Qed.
-Print Assumptions read_mesh_triangles_partial.
+Print Assumptions read_mesh_triangles.
 
-Theorem read_mesh_triangles_noisy_partial : forall a fps ip ct lt noisy, trimesh_ok a fps ip ct lt ->
+Theorem read_mesh_triangles_noisy : forall a fps ip ct lt noisy, trimesh_ok a fps ip ct lt ->
   with_noise (header_body (header_of a)) noisy ->
   read_mesh {| pf_header := ["ply"%string] :: ["format"%string; fmt_name (a_fmt a); "1.0"%string] :: noisy;
                pf_body := enc_body a |} = describe a.
 Proof. exact read_mesh_tris_noisy_proof. Qed.
-Print Assumptions read_mesh_triangles_noisy_partial.
+Print Assumptions read_mesh_triangles_noisy.
 
 (* ---- non-vacuity: a big-endian file with a double before the position, colour bytes, a quad and a triangle ---- *)
 Example c08_example :
